@@ -172,6 +172,94 @@ func init() {
 		func(x *Exec, st *State, fr *Frame, c *callCtx) bool { return x.jsonMarshal(st, fr, c) })
 	reg("encoding/json.Unmarshal", "json.Unmarshal: may fail; on success a string map target holds jsonmap(bytes); a pointer target may be left nil (input null)",
 		func(x *Exec, st *State, fr *Frame, c *callCtx) bool { return x.jsonUnmarshal(st, fr, c) })
+	reg("github.com/resonatehq/resonate/internal/util.UnmarshalChain", "util.UnmarshalChain: json.Unmarshal into each target in turn; the first success wins (a pointer target may be left nil: input null), earlier targets are zeroed; all fail => error", func(x *Exec, st *State, fr *Frame, c *callCtx) bool {
+		return x.unmarshalChain(st, fr, c)
+	})
+	// prometheus: metric vectors are created with fixed label names in metrics.New; the label arity at
+	// every call site is assumed to match (WithLabelValues panics otherwise)
+	nonNilIface := func(x *Exec, st *State, fr *Frame, c *callCtx) bool {
+		x.callCounter++
+		return x.finish(st, fr, c, VIface{Nil: TFalse, Typ: c.ret.Type(), Id: x.sym.Fresh("metric.id", SErr)})
+	}
+	reg("(*github.com/prometheus/client_golang/prometheus.GaugeVec).WithLabelValues", "returns a non-nil gauge; ASSUMED: the number of label values matches the vector's label names (fixed in metrics.New), otherwise it panics", nonNilIface)
+	reg("(*github.com/prometheus/client_golang/prometheus.CounterVec).WithLabelValues", "returns a non-nil counter; ASSUMED: label arity matches (fixed in metrics.New)", nonNilIface)
+	reg("(*github.com/prometheus/client_golang/prometheus.HistogramVec).WithLabelValues", "returns a non-nil observer; ASSUMED: label arity matches (fixed in metrics.New)", nonNilIface)
+	for _, m := range []string{"Gauge).Inc", "Gauge).Dec", "Gauge).Set", "Gauge).Add", "Counter).Inc", "Counter).Add", "Observer).Observe"} {
+		reg("(github.com/prometheus/client_golang/prometheus."+m, "metrics have no effect on verified state", func(x *Exec, st *State, fr *Frame, c *callCtx) bool {
+			return x.finish(st, fr, c, nil)
+		})
+	}
+	reg("math/rand.Intn", "rand.Intn(n): panics unless n > 0; returns an arbitrary r with 0 <= r < n", func(x *Exec, st *State, fr *Frame, c *callCtx) bool {
+		n := x.scalar(st, c.args[0])
+		x.oblige(st, "panic", "rand.Intn called with n <= 0", Gt(n, IntLit(0)), c.common.Pos(), x.panicProps)
+		st.assume(Gt(n, IntLit(0)))
+		r := x.sym.Fresh("rand.intn", SInt)
+		st.assume(And(Ge(r, IntLit(0)), Lt(r, n)))
+		return x.finish(st, fr, c, VScalar{r})
+	})
+	// net/http client side (the http plugin): the network is arbitrary
+	twoResultMayFail := func(label string) Intrinsic {
+		return func(x *Exec, st *State, fr *Frame, c *callCtx) bool {
+			fail := x.sym.Fresh(label+".fails", SBool)
+			tup := c.ret.Type().(*types.Tuple)
+			ts, fs := x.fork(st, fail, label+" fails")
+			if ts != nil {
+				x.completeCall(ts, c, VTuple{[]Value{VPtr{Nil: TTrue, Typ: tup.At(0).Type()}, x.freshErr(ts, label+".err", TFalse)}})
+			}
+			if fs != nil {
+				x.callCounter++
+				pt := tup.At(0).Type().(*types.Pointer)
+				obj := x.alloc(fs, VLazy{Typ: pt.Elem(), Name: fmt.Sprintf("%s!%d", label, x.callCounter)})
+				x.completeCall(fs, c, VTuple{[]Value{VPtr{Nil: TFalse, Loc: &Loc{Obj: obj}, Typ: pt}, VIface{Nil: TTrue, Typ: errType()}}})
+			}
+			return true
+		}
+	}
+	reg("net/http.NewRequest", "may fail; on success a non-nil request", twoResultMayFail("http.NewRequest"))
+	reg("(*net/http.Client).Do", "the network: may fail; on success a non-nil response with an arbitrary status code", twoResultMayFail("http.Do"))
+	reg("(net/http.Header).Set", "ASSUMED: the request's Header map is non-nil (NewRequest allocates it); no effect on verified state", func(x *Exec, st *State, fr *Frame, c *callCtx) bool {
+		return x.finish(st, fr, c, nil)
+	})
+	// net/url
+	reg("net/url.Parse", "url.Parse: may fail; on success a non-nil *URL whose components are unconstrained strings", func(x *Exec, st *State, fr *Frame, c *callCtx) bool {
+		fail := x.sym.Fresh("url.parse.fails", SBool)
+		tup := c.ret.Type().(*types.Tuple)
+		ts, fs := x.fork(st, fail, "url.Parse fails")
+		if ts != nil {
+			x.completeCall(ts, c, VTuple{[]Value{VPtr{Nil: TTrue, Typ: tup.At(0).Type()}, x.freshErr(ts, "url.err", TFalse)}})
+		}
+		if fs != nil {
+			x.callCounter++
+			pt := tup.At(0).Type().(*types.Pointer)
+			obj := x.alloc(fs, VLazy{Typ: pt.Elem(), Name: fmt.Sprintf("url!%d", x.callCounter)})
+			x.completeCall(fs, c, VTuple{[]Value{VPtr{Nil: TFalse, Loc: &Loc{Obj: obj}, Typ: pt}, VIface{Nil: TTrue, Typ: errType()}}})
+		}
+		return true
+	})
+	reg("(*net/url.URL).String", "uninterpreted string", noop)
+	reg("bytes.NewReader", "a reader over the given bytes", func(x *Exec, st *State, fr *Frame, c *callCtx) bool {
+		return x.finish(st, fr, c, x.newBox(st, c.common.Signature().Results().At(0).Type(), x.force(st, c.args[0])))
+	})
+	reg("encoding/json.NewDecoder", "a decoder over the reader's bytes (only readers created by bytes.NewReader)", func(x *Exec, st *State, fr *Frame, c *callCtx) bool {
+		b, ok := x.boxOf(st, c.args[0])
+		if !ok {
+			x.unsupported(st, "json.NewDecoder over an unknown reader")
+			return true
+		}
+		return x.finish(st, fr, c, x.newBox(st, c.common.Signature().Results().At(0).Type(), b))
+	})
+	reg("(*encoding/json.Decoder).DisallowUnknownFields", "restricts what decodes successfully; failure is already arbitrary", func(x *Exec, st *State, fr *Frame, c *callCtx) bool {
+		return x.finish(st, fr, c, nil)
+	})
+	reg("(*encoding/json.Decoder).Decode", "as json.Unmarshal of the decoder's bytes: may fail; a pointer target may be left nil (input null)", func(x *Exec, st *State, fr *Frame, c *callCtx) bool {
+		b, ok := x.boxOf(st, c.args[0])
+		data, ok2 := b.(VBytes)
+		if !ok || !ok2 {
+			x.unsupported(st, "Decode on an unknown decoder")
+			return true
+		}
+		return x.jsonDecodeInto(st, fr, c, data, c.args[1])
+	})
 	reg("encoding/json.Valid", "arbitrary", func(x *Exec, st *State, fr *Frame, c *callCtx) bool {
 		return x.finish(st, fr, c, x.symbolicResult(st, c))
 	})
@@ -365,7 +453,35 @@ func (x *Exec) jsonUnmarshal(st *State, fr *Frame, c *callCtx) bool {
 		x.unsupported(st, "json.Unmarshal of non-bytes")
 		return true
 	}
-	target := x.force(st, c.args[1])
+	return x.jsonDecodeInto(st, fr, c, data, c.args[1])
+}
+
+// VBox is the heap content of an external reader/decoder object: the bytes it was created from.
+type VBox struct{ V Value }
+
+func (x *Exec) boxOf(st *State, v Value) (Value, bool) {
+	v = x.force(st, v)
+	if iv, ok := v.(VIface); ok && iv.Dyn != nil {
+		v = x.force(st, iv.Val)
+	}
+	p, ok := v.(VPtr)
+	if !ok || p.Loc == nil {
+		return nil, false
+	}
+	b, ok := st.heap[p.Loc.Obj].(VBox)
+	if !ok {
+		return nil, false
+	}
+	return b.V, true
+}
+
+func (x *Exec) newBox(st *State, t types.Type, v Value) Value {
+	obj := x.alloc(st, VBox{V: v})
+	return VPtr{Nil: TFalse, Loc: &Loc{Obj: obj}, Typ: t}
+}
+
+func (x *Exec) jsonDecodeInto(st *State, fr *Frame, c *callCtx, data VBytes, targetV Value) bool {
+	target := x.force(st, targetV)
 	iv, ok := target.(VIface)
 	if !ok || iv.Dyn == nil {
 		x.unsupported(st, "json.Unmarshal into opaque target")
@@ -384,36 +500,7 @@ func (x *Exec) jsonUnmarshal(st *State, fr *Frame, c *callCtx) bool {
 		// success path
 		s := fs
 		sf := s.top()
-		switch {
-		case isStringMap(elemT):
-			cur := x.force(s, x.load(s, p.Loc)).(VMap)
-			isNull := Eq(data.B, Term{"json.null", SBytes})
-			decoded := App(SMapSS, "jsonmap", data.B)
-			if cur.Obj >= 0 && !cur.Nil.IsTrue() {
-				// decoding into an existing map adds/overwrites keys; the code under
-				// verification always passes an empty map, so merge == decoded when empty
-				old := s.heap[cur.Obj].(MapSS).A
-				merged := Ite(isNull, old, Ite(Eq(old, Term{"smap.empty", SMapSS}), decoded, App(SMapSS, "smap.merge", old, decoded)))
-				s.heap[cur.Obj] = MapSS{A: merged}
-			} else {
-				obj := x.alloc(s, MapSS{A: Ite(isNull, Term{"smap.empty", SMapSS}, decoded)})
-				x.store(s, p.Loc, VMap{Nil: isNull, Obj: obj, Typ: elemT})
-			}
-		default:
-			if pt, isPtr := elemT.Underlying().(*types.Pointer); isPtr {
-				// **T: null leaves/sets the inner pointer nil
-				isNull := Eq(data.B, Term{"json.null", SBytes})
-				x.callCounter++
-				name := fmt.Sprintf("json.decoded!%d", x.callCounter)
-				obj := x.alloc(s, VLazy{Typ: pt.Elem(), Name: name})
-				x.store(s, p.Loc, VPtr{Nil: isNull, Loc: &Loc{Obj: obj}, Typ: elemT})
-				x.decodedFrom(s, obj, pt.Elem(), data.B, name)
-			} else {
-				x.callCounter++
-				name := fmt.Sprintf("json.decoded!%d", x.callCounter)
-				x.store(s, p.Loc, VLazy{Typ: elemT, Name: name})
-			}
-		}
+		x.decodeStore(s, p, elemT, data)
 		if fs != st {
 			if !s.dead {
 				x.finishOn(s, sf, c, VIface{Nil: TTrue, Typ: errType()})
@@ -426,6 +513,99 @@ func (x *Exec) jsonUnmarshal(st *State, fr *Frame, c *callCtx) bool {
 	if ts != nil {
 		x.finish(ts, ts.top(), c, x.freshErr(ts, "json.unmarshal.err", TFalse))
 	}
+	return true
+}
+
+// decodeStore writes the result of a successful json decode of data into *p (element type elemT).
+func (x *Exec) decodeStore(s *State, p VPtr, elemT types.Type, data VBytes) {
+	switch {
+	case isStringMap(elemT):
+		cur := x.force(s, x.load(s, p.Loc)).(VMap)
+		isNull := Eq(data.B, Term{"json.null", SBytes})
+		decoded := App(SMapSS, "jsonmap", data.B)
+		if cur.Obj >= 0 && !cur.Nil.IsTrue() {
+			// decoding into an existing map adds/overwrites keys; the code under
+			// verification always passes an empty map, so merge == decoded when empty
+			old := s.heap[cur.Obj].(MapSS).A
+			merged := Ite(isNull, old, Ite(Eq(old, Term{"smap.empty", SMapSS}), decoded, App(SMapSS, "smap.merge", old, decoded)))
+			s.heap[cur.Obj] = MapSS{A: merged}
+		} else {
+			obj := x.alloc(s, MapSS{A: Ite(isNull, Term{"smap.empty", SMapSS}, decoded)})
+			x.store(s, p.Loc, VMap{Nil: isNull, Obj: obj, Typ: elemT})
+		}
+	default:
+		if pt, isPtr := elemT.Underlying().(*types.Pointer); isPtr {
+			// **T: null leaves/sets the inner pointer nil
+			isNull := Eq(data.B, Term{"json.null", SBytes})
+			x.callCounter++
+			name := fmt.Sprintf("json.decoded!%d", x.callCounter)
+			obj := x.alloc(s, VLazy{Typ: pt.Elem(), Name: name})
+			x.store(s, p.Loc, VPtr{Nil: isNull, Loc: &Loc{Obj: obj}, Typ: elemT})
+			x.decodedFrom(s, obj, pt.Elem(), data.B, name)
+		} else {
+			x.callCounter++
+			name := fmt.Sprintf("json.decoded!%d", x.callCounter)
+			x.store(s, p.Loc, VLazy{Typ: elemT, Name: name})
+		}
+	}
+}
+
+// unmarshalChain models util.UnmarshalChain(data, &a, &b, ...): the first target that decodes wins and
+// the earlier ones are reset to their zero value; if none decodes an error is returned and all are zero.
+func (x *Exec) unmarshalChain(st *State, fr *Frame, c *callCtx) bool {
+	data, ok := x.force(st, c.args[0]).(VBytes)
+	sl, ok2 := x.force(st, c.args[1]).(VSlice)
+	if !ok || !ok2 || sl.Arr < 0 {
+		x.unsupported(st, "UnmarshalChain with unknown targets")
+		return true
+	}
+	arr, ok := st.heap[sl.Arr].(VArray)
+	if !ok {
+		x.unsupported(st, "UnmarshalChain with unknown targets")
+		return true
+	}
+	type tgt struct {
+		p     VPtr
+		elemT types.Type
+	}
+	var tgts []tgt
+	for _, e := range arr.E {
+		iv, ok := x.force(st, e).(VIface)
+		if !ok || iv.Dyn == nil {
+			x.unsupported(st, "UnmarshalChain into opaque target")
+			return true
+		}
+		p, ok := x.force(st, iv.Val).(VPtr)
+		pt, ok2 := iv.Dyn.Underlying().(*types.Pointer)
+		if !ok || !ok2 || p.Loc == nil {
+			x.unsupported(st, "UnmarshalChain into non pointer")
+			return true
+		}
+		tgts = append(tgts, tgt{p, pt.Elem()})
+	}
+	zero := func(s *State, t tgt) {
+		x.store(s, t.p.Loc, x.zero(s, t.elemT))
+	}
+	cur := st
+	for i, t := range tgts {
+		fail := x.sym.Fresh(fmt.Sprintf("unmarshalchain.%d.fails", i), SBool)
+		ts, fs := x.fork(cur, fail, fmt.Sprintf("UnmarshalChain target %d fails", i))
+		if fs != nil {
+			for _, e := range tgts[:i] {
+				zero(fs, e)
+			}
+			x.decodeStore(fs, t.p, t.elemT, data)
+			x.completeCall(fs, c, VIface{Nil: TTrue, Typ: errType()})
+		}
+		if ts == nil {
+			return true
+		}
+		cur = ts
+	}
+	for _, e := range tgts {
+		zero(cur, e)
+	}
+	x.completeCall(cur, c, x.freshErr(cur, "unmarshalchain.err", TFalse))
 	return true
 }
 
